@@ -7,6 +7,7 @@ on_hci_disconnection_complete_event (queue wiring), bumble.utils.FlowControlAsyn
 import collections
 
 from vf.e1 import harness
+from vf import flags as _flags
 from vf import detloop
 
 from bumble import hci
@@ -349,3 +350,6 @@ def pipe_order(threshold: int, o1: int, o2: int, o3: int, o4: int, o5: int, o6: 
                 loop.run_ready()
         pipe.stop()
         return got == written and pipe.queued_bytes == 0 and not pipe.queue
+
+
+_flags.int_format_placeholder = True     # log f-strings with symbolic ints are not the subject here (see vf/flags.py)
